@@ -11,7 +11,89 @@ use crate::props::c07::gen_write_faults;
 use crate::reqgen::{self, Auth, BodySpec, ReqPlan};
 use crate::runner::{violation, RunCtx, RunReport, Stats, Verdict};
 
+/// Two forms in one process: the second carries the captured wire body of the first as a file
+/// part.  Every form has its own boundary, so the second must still decode to its own parts.
+fn two_forms(g: &mut G, ctx: &RunCtx) -> RunReport {
+    use std::sync::{Arc, Mutex};
+    let form1 = reqgen::gen_form(g, 20_000, true);
+    let mut form2 = reqgen::gen_form(g, 20_000, false);
+    let sim = attosim::Sim::new(ctx.sim_config());
+    let ip: std::net::IpAddr = bodyx::HOST_IP.parse().unwrap();
+    let seen = Arc::new(Mutex::new(crate::peers::Seen::default()));
+    let seen2 = seen.clone();
+    sim.add_listener(
+        ip,
+        80,
+        attosim::ConnectBehaviour::Accept { latency_ns: attosim::NS_PER_MS },
+        Some(Box::new(move |_i| {
+            Box::new(crate::peers::HttpPeer::new(
+                Arc::new(|_r, _c| {
+                    let mut s = Script::default();
+                    s.acts.push(Act::Send(b"HTTP/1.1 200 OK\r\nContent-Length: 0\r\n\r\n".to_vec()));
+                    s.acts.push(Act::Fin);
+                    s
+                }),
+                seen2.clone(),
+            ))
+        })),
+    );
+    let mk_plan = |f: &reqgen::FormSpec| ReqPlan { method: "POST".into(), path: "/upload".into(), url_query: vec![], params: vec![], params_batch: false, headers: vec![], auth: Auth::None, body: BodySpec::Multipart(f.clone()) };
+    let url = format!("http://{}/upload", bodyx::HOST_IP);
+    let f1 = form1.clone();
+    let f2 = form2.clone();
+    let seen3 = seen.clone();
+    let out = sim.run(move || {
+        let r1 = mk_plan(&f1).send(attohttpc::RequestBuilder::new(attohttpc::Method::POST, &url)).map(|r| r.status().as_u16()).map_err(|e| err_kind(&e));
+        // the second form carries the body of the first as a file
+        let body1 = seen3.lock().unwrap().requests.first().and_then(|(_, r)| r.as_ref().ok().map(|r| r.body.clone())).unwrap_or_default();
+        let mut f2 = f2;
+        f2.files.push(("capture".into(), body1, Some("first-request.bin".into()), None));
+        let r2 = mk_plan(&f2).send(attohttpc::RequestBuilder::new(attohttpc::Method::POST, &url)).map(|r| r.status().as_u16()).map_err(|e| err_kind(&e));
+        (r1, r2, f2)
+    });
+    let mut stats = Stats::default();
+    stats.absorb(&out.history);
+    let verdict = match &out.result {
+        None => violation("hang", "torn down"),
+        Some(Err(m)) => violation(format!("panic:{}", crate::props::c02::panic_site(m)), m.clone()),
+        Some(Ok((r1, r2, f2))) => {
+            form2 = f2.clone();
+            let s = seen.lock().unwrap();
+            let reqs: Vec<&crate::httpref::ParsedRequest> = s.requests.iter().filter_map(|(_, r)| r.as_ref().ok()).collect();
+            if reqs.len() != 2 || r1.is_err() || r2.is_err() {
+                violation("two-forms:send-failed", format!("results {:?} {:?}, {} well-formed requests arrived", r1, r2, reqs.len()))
+            } else {
+                match (reqgen::check_multipart(&form1, reqs[0]), reqgen::check_multipart(&form2, reqs[1])) {
+                    (Err((c, m)), _) => violation(format!("two-forms:first:{}", c), m),
+                    (_, Err((c, m))) => violation(format!("two-forms:second:{}", c), format!("the second form (which carries the first request's body as a file part): {}", m)),
+                    _ => {
+                        let b1 = crate::mpref::boundary_of(&reqs[0].header_str("content-type").unwrap_or_default());
+                        let b2 = crate::mpref::boundary_of(&reqs[1].header_str("content-type").unwrap_or_default());
+                        if b1.is_some() && b1 == b2 {
+                            violation("two-forms:same-boundary", format!("both forms use the boundary {:?}", b1))
+                        } else {
+                            Verdict::Pass
+                        }
+                    }
+                }
+            }
+        }
+    };
+    RunReport {
+        verdict,
+        shape: format!("two-forms/t={}/f={}/t2={}/f2={}", form1.texts.len(), form1.files.len(), form2.texts.len(), form2.files.len()),
+        nontrivial: true,
+        stats,
+        sched_tape: out.sched_tape,
+        describe: if ctx.describe { format!("two forms in one run; the second carries the first request's body as a file part; form1 texts={} files={}", form1.texts.len(), form1.files.len()) } else { String::new() },
+    }
+}
+
 pub fn scenario(g: &mut G, ctx: &RunCtx) -> RunReport {
+    if g.chance(1, 8) {
+        g.probe("two-forms-second-carries-first-body");
+        return two_forms(g, ctx);
+    }
     let form = reqgen::gen_form(g, if ctx.thorough { 140_000 } else { 70_000 }, true);
     let plan = ReqPlan {
         method: "POST".into(),
